@@ -99,6 +99,8 @@ func classify(err error) int {
 		return 8
 	case bytes.Contains([]byte(s), []byte("is too big")):
 		return 9
+	case bytes.Contains([]byte(s), []byte("is too small")):
+		return 12
 	}
 	return 50
 }
@@ -130,9 +132,9 @@ func decrypt(side int, k crypto.AuthKey, ct []byte) decObs {
 
 func coqDec(o decObs) string {
 	if o.Code != 0 {
-		return hx.Tuple(hx.Z(int64(o.Code)), hx.Tuple("0", "0", "0", "0"), "0", "[]")
+		return hx.Tuple(hx.Z(int64(o.Code)), hx.Tuple("0", "0", "0", "0"), "0", "(0, 0)")
 	}
-	return hx.Tuple("0", hx.Tuple(hx.Z(o.Salt), hx.Z(o.Session), hx.Z(o.MsgID), hx.Z(int64(o.SeqNo))), hx.Z(int64(o.MLen)), hx.Bytes(o.Body))
+	return hx.Tuple("0", hx.Tuple(hx.Z(o.Salt), hx.Z(o.Session), hx.Z(o.MsgID), hx.Z(int64(o.SeqNo))), hx.Z(int64(o.MLen)), hx.PackedBytes(o.Body))
 }
 
 func gzipEncoded(p []byte) []byte {
@@ -198,9 +200,9 @@ func run(c *hx.Ctx, t tc, kind string, emit bool) {
 		if mode == 2 {
 			mode = 0
 		}
-		term := hx.Tuple(hx.Z(int64(mode)), hx.Z(int64(t.Side)), hx.Bytes(t.Key), hx.Bytes(t.KeyID),
+		term := hx.Tuple(hx.Z(int64(mode)), hx.Z(int64(t.Side)), hx.PackedBytes(t.Key), hx.PackedBytes(t.KeyID),
 			hx.Tuple(hx.Z(t.Salt), hx.Z(t.Session), hx.Z(t.MsgID), hx.Z(int64(t.SeqNo))), hx.Z(int64(t.MLen)),
-			hx.Bytes(modelPayload), hx.Bytes(t.Rnd), hx.Tuple(hx.Z(int64(encCode)), hx.Bytes(ct)), coqDec(od))
+			hx.PackedBytes(modelPayload), hx.PackedBytes(t.Rnd), hx.Tuple(hx.Z(int64(encCode)), hx.PackedBytes(ct)), coqDec(od))
 		sh, ix = c.Case(term, t)
 	}
 	c.Count(fmt.Sprintf("%s:mode=%d:len<=%d", kind, t.Mode, bucket(len(t.Payload))))
@@ -349,6 +351,14 @@ func main() {
 			t.MLen = []int32{-4, int32(len(t.Payload)) + 4, -1, 3, int32(len(t.Payload)) - 4, math.MaxInt32}[c.Rng.Intn(6)]
 		}
 		run(c, t, "malformed", true)
+	}
+	// receiver-side padding window: explicit MessageDataLen larger than the body eats into the random padding
+	// (first random byte 0x?0 => 16 padding bytes for a 16-aligned plaintext): padding 12, 8, 4, 0 as seen by Decrypt
+	for _, eat := range []int{4, 8, 12, 16} {
+		t := gen(c, 1, 16*c.Rng.Intn(4))
+		t.MLen = int32(len(t.Payload) + eat)
+		t.Rnd = append([]byte{byte(c.Rng.Intn(16)) << 4}, c.Rng.Bytes(16)...)
+		run(c, t, "padding-window", true)
 	}
 	// random source failing after k bytes
 	for i := 0; i < c.N(3, 20); i++ {
